@@ -22,11 +22,65 @@ TEXT = {
   "note": "trusted: Coq kernel, extraction, harness; Go map iteration order is an input of the model; no neighbor is literally called \"host\"",
   "technique": "Coq proof (list lemmas on filters and a strict arg-max fold, case analysis of update) + differential correspondence on sync rounds",
  },
- "C08": {
-  "level": "Paging theorems for all chains, heights and realistic page sizes (the uint64 wrap written out): a page is exactly the contiguous slice [h, min(h+limit, n)), never longer than the page size, empty iff h >= n or n = 0 or limit = 0, and concatenated pages rebuild the chain. Convergence theorems for every servable chain C (hash-linked, replayable, each block verifiable with the verifier's one-block lag, every block rewarded, tip not in the future), page size >= 3 and any non-empty set of neighbors that answer C's pages: one round from a prefix longer than two blocks adopts exactly limit-1 more blocks of C; one full round from a chain of one or two blocks adopts the first page; hence from a prefix of C or from a private chain of at most two blocks, every n >= 1 + ceil(|C|/(limit-1)) rounds end with exactly C and with the registers of C's replay, and between reachable nodes the node that caught up reports the same outputs and registrations as the serving node.",
-  "ref": "DESIGN.md section 4, C08",
-  "note": "hypotheses: sane page size (chain length + page <= 2^64), no neighbor called \"host\", a non-empty own chain (an empty node never syncs); a private chain longer than two blocks that is not a prefix is not covered by the theorem (the property allows it when shorter than the page size: measured by the catchup suite); trusted: Coq kernel, extraction, harness",
-  "technique": "Coq proof (list/N arithmetic of paging; completeness of the verification loop on servable chains; measure argument over rounds) + differential correspondence and round counting on real nodes",
+ "C09": {
+  "level": "41 theorems over the real-number model of Utxo.Value for all amounts, times and settings: decay never exceeds the initial value, is antitone and halves per half-life; income stays between the initial value and the limit, is monotone in time and in the amount, reaches the base from zero after one half-life; valuing twice never gains (even without the +1), with the code's floor placements; the value depends on elapsed time only. The binary64 step is validated pointwise: each sampled point is enclosed by the interval tactic and Go's result must lie within the property's slack.",
+  "ref": "DESIGN.md section 4, C09",
+  "note": "axioms: the standard real-number axioms + classic + functional_extensionality_dep (Reals/Coquelicot/Interval); Go's libm is not formalised (pointwise validation only)",
+  "technique": "Coq proof over Reals (lra/nra/field, exp/ln lemmas) + interval-arithmetic enclosures compared with the implementation",
+ },
+ "C17": {
+  "level": "Theorems over the model of neighborhood.go/target.go for every maximum >= 0, score map, iteration order, shuffle, reachability and resolution oracle: the selection never exceeds the maximum and has exactly min(count, reachable) elements; every selected peer is a reachable known target (or seed) other than the host's own string; no left-out reachable peer has a higher score than a selected one; every selected peer is sent the host and every other reachable target; announced targets are kept iff well-formed and on the host's network, never overwriting a score. Distinctness of sender targets is proved under injective resolution and refuted without it (DNS aliasing: a known finding).",
+  "ref": "DESIGN.md section 4, C17",
+  "note": "trusted: Coq kernel, extraction, harness; SplitHostPort, DNS and dialing are oracles; the random cut is compared by membership",
+  "technique": "Coq proof (list induction over the bucket selection) + differential correspondence on refresh rounds of the real Neighborhood",
+ },
+ "C18": {
+  "level": "Theorems over the model of GetTransactionInfo for all holdings, amounts, fees and both modes (no wrap): 405 exactly when the balance is below amount + fee; otherwise distinct, non-zero holdings whose values sum to amount + fee + rest, all of them under consolidation, exactly one when a single output suffices; the selection loop cannot run out of values (the Go index expression cannot panic). Acceptance by the validator is checked end to end on the real pool, and follows in the model from C11's admission theorem.",
+  "ref": "DESIGN.md section 4, C18",
+  "note": "trusted: Coq kernel, extraction, harness; Utxo.Value oracle; HTTP layer outside the model; 'admitted and included' is validated on the real pool (and proved only as the composition of C18_exact with C11_admission_complete's hypotheses)",
+  "technique": "Coq proof (invariant of the greedy closest-value loop) + differential correspondence and end-to-end submission on a real validator",
+ },
+ "C19": {
+  "level": "Theorems over the models of the balance sum and of the progress cascade for all validator answers: the balance is the sum of the per-output values (mod 2^64); the status is confirmed iff the output is listed, else validated iff its transaction is in the first returned block, else sent iff pooled, else rejected; the complete error table (400 only for an undecodable body; which failing step gives 500; what a listed output masks).",
+  "ref": "DESIGN.md section 4, C19",
+  "note": "trusted: Coq kernel, extraction, harness; float division/formatting recomputed by the harness",
+  "technique": "Coq proof (case analysis of the cascade) + differential correspondence with the real controllers against a live and a fault-injecting validator",
+ },
+ "C01": {
+  "level": "Theorems in exact (non-wrapping) N arithmetic at the three places a transaction is judged: a block accepted by verify_block, every new block of a candidate accepted by verify, a transaction accepted by the pool (valued at the next block time), and every transaction kept by production pay out at most the value of the outputs they consume minus the minimal fee, and the block's single reward is at most the sum of what its transactions leave over (plus the genesis amount in a first block). The pinned tree's wrapping sum is refuted by a concrete witness (fixed in /repo). Tied to the code by histories on the real node with a big-integer monitor on every served chain.",
+  "ref": "DESIGN.md section 4, C01",
+  "note": "trusted: Coq kernel, extraction, harness; Utxo.Value, ECDSA, address derivation are oracles; the bound is stated against the registry state the code consults at each of the three places (C07 identifies that state with the replay of the chain); the global 'supply' corollary is not proved",
+  "technique": "Coq proof (exact-arithmetic lemmas about CalculateFee, inversion of verifyBlock / admission / production loop) + differential correspondence and big-integer monitor on operation histories",
+ },
+ "C03": {
+  "level": "Theorems at the three places a transaction is judged (admission, production, adopted block and every new block of an adopted chain): every input carries a signature accepted for its output reference under its key, and the key's address is the owner of the output it consumes; conversely an unsigned input or a wrong owner is refused at each of the three places.",
+  "ref": "DESIGN.md section 4, C03",
+  "note": "ECDSA and address derivation are oracles (what ecdsa.Verify answers is recorded, not proved); blocks not re-verified because their hash equals the host's block rely on SHA-256 collision resistance",
+  "technique": "Coq proof (inversion of the three acceptance functions) + differential correspondence with single-field corruptions of valid inputs",
+ },
+ "C04": {
+  "level": "Theorems over all histories (induction over reach): every chain a node holds satisfies, for each block after the first, link to the predecessor's hash, timestamp = predecessor + interval, exactly one reward, every ordinary transaction dated within [predecessor, block]; a replaced chain holds no new non-first block dated after the adopting node's clock. The edge the code leaves open (a tip dated 0 is taken for an empty chain) is exhibited as a refutation and excluded by hypothesis.",
+  "ref": "DESIGN.md section 4, C04",
+  "note": "hypotheses: fee >= 1, interval >= 0, injective H (SHA-256 collision resistance), aligned ticks, no tip dated 0; trusted: Coq kernel, extraction, harness",
+  "technique": "Coq proof (invariant by induction over operation histories, inversion of verify/validate) + differential correspondence with one-rule-broken candidate chains",
+ },
+ "C07": {
+  "level": "Theorem over all histories of production ticks, submissions, sync rounds against arbitrary neighbors and registry refreshes: the node's output registry is exactly the replay, from an empty state, of its chain minus the last block, and its registered set equals the replayed one; hence Utxos(a) and IsRegistered(a) agree for every address. Tied to the code by comparing the complete observable state with the model after every operation and by a model-free replay monitor.",
+  "ref": "DESIGN.md section 4, C07",
+  "note": "operation granularity; no neighbor is literally called \"host\"; trusted: Coq kernel, extraction, harness, oracles",
+  "technique": "Coq proof (invariant by induction over reach, replay composition, unreachability of the failing-commit branch) + differential correspondence + replay monitor",
+ },
+ "C12": {
+  "level": "Theorems: each operation leaves the chain unchanged, appends one block, or (sync round) either adopts a fully verified chain in a full re-sync or keeps everything below the tip untouched (prefix preservation); every reachable chain is hash-linked. In-place mutation of chained blocks (the pinned tree's aliasing defect, fixed) is outside immutable model values and is caught by the correspondence on block hashes and by re-observing every block after every operation.",
+  "ref": "DESIGN.md section 4, C12",
+  "note": "Go slice aliasing is not modelled (caught by correspondence/monitor, not by a theorem); trusted: Coq kernel, extraction, harness",
+  "technique": "Coq proof (case analysis of step, invariant chain_linked over reach) + differential correspondence and hash re-observation monitor",
+ },
+ "C02": {
+  "level": "Theorems over the registry model: a transaction naming one output twice can never be applied; a successfully applied block consumes pairwise distinct references, each spendable before the block or created earlier in it, and none is spendable afterwards; along a replayed chain with distinct transaction ids no reference is consumed twice and every consumed reference stays unspendable; from the empty state every input names an output created earlier in the chain. Admission refuses a transaction conflicting with the last block or the pool (proved under distinct ids; the hypothesis-free form is refuted by an id-reuse witness that content-hashed ids exclude).",
+  "ref": "DESIGN.md section 4, C02",
+  "note": "hypothesis: pairwise distinct transaction ids (content hashes, C15); same-block spends are accepted by the producer: known finding; trusted: Coq kernel, extraction, harness",
+  "technique": "Coq proof (well-formedness invariant of the output registry, induction over blocks and chains) + differential correspondence with conflicting-spend histories and a consumed-reference monitor",
  },
  "C10": {
   "level": "Theorems: after every successfully applied block, along every replayed chain and in every reachable node no address owns two unspent yielding outputs; a block passes verification only if every yielding output of its ordinary transactions goes to an address registered in the state consulted or listed as newly registered by that block; a produced block lists every yielding recipient that is not already registered; addresses listed as removed (and not re-added by the same block) are not registered once the block is applied.",
@@ -63,5 +117,11 @@ TEXT = {
   "ref": "DESIGN.md section 4, C14",
   "note": "partial below the JSON tree: Go's lexer, golang-p2p framing and gin are exercised by the crash suite (every schema position x 14 fault kinds, ids recomputed), not modelled; access-node division by a zero validation interval is a settings matter; trusted: Coq kernel, extraction, harness",
   "technique": "Coq proof (decoder image + invariant over arbitrary wire histories with panic sites as error values) + fault-matrix correspondence on the real handlers, sync round and access-node controllers",
+ },
+ "C08": {
+  "level": "Paging theorems for all chains, heights and realistic page sizes (the uint64 wrap written out): a page is exactly the contiguous slice [h, min(h+limit, n)), never longer than the page size, empty iff h >= n or n = 0 or limit = 0, and concatenated pages rebuild the chain. Convergence theorems for every servable chain C (hash-linked, replayable, each block verifiable with the verifier's one-block lag, every block rewarded, tip not in the future), page size >= 3 and any non-empty set of neighbors that answer C's pages: one round from a prefix longer than two blocks adopts exactly limit-1 more blocks of C; one full round from a chain of one or two blocks adopts the first page; hence from a prefix of C or from a private chain of at most two blocks, every n >= 1 + ceil(|C|/(limit-1)) rounds end with exactly C and with the registers of C's replay, and between reachable nodes the node that caught up reports the same outputs and registrations as the serving node.",
+  "ref": "DESIGN.md section 4, C08",
+  "note": "hypotheses: sane page size (chain length + page <= 2^64), no neighbor called \"host\", a non-empty own chain (an empty node never syncs); a private chain longer than two blocks that is not a prefix is not covered by the theorem (the property allows it when shorter than the page size: measured by the catchup suite); trusted: Coq kernel, extraction, harness",
+  "technique": "Coq proof (list/N arithmetic of paging; completeness of the verification loop on servable chains; measure argument over rounds) + differential correspondence and round counting on real nodes",
  },
 }
